@@ -493,6 +493,8 @@ static float perc_hb_probes = 100.0;	/* decaying avge of how many complete */
 static void call_heart_beat () {
 
   object_t *ob;
+  error_context_t econ;
+
   heart_beat_flag = 0;
   time (&current_time);
   opt_trace (TT_BACKEND|1, "tick: current_time=%u", current_time);
@@ -504,6 +506,10 @@ static void call_heart_beat () {
       heart_beat_t *curr_hb;
       num_hb_calls++;
       heart_beat_index = 0;
+      /* An error in one heart_beat() ends that call only: the rest of this tick's heart beats, the
+       * resets and the call_outs due now are not put off to the next tick. (error_handler() has
+       * reported the error and switched the failing heart beat off, which took it out of the round.) */
+      save_context (&econ);
       while (!heart_beat_flag)
         {
           ob = (curr_hb = &heart_beats[heart_beat_index])->ob;
@@ -521,7 +527,10 @@ static void call_heart_beat () {
                     command_giver = 0;
                   eval_cost = CONFIG_INT (__MAX_EVAL_COST__);
                   opt_trace (TT_BACKEND|3, "calling heart beat #%d/%d: %s", heart_beat_index + 1, num_hb_to_do, ob->name);
-                  call_function (ob->prog, ob->prog->heart_beat, 0, 0);
+                  if (setjmp (econ.context))
+                    restore_context (&econ);
+                  else
+                    call_function (ob->prog, ob->prog->heart_beat, 0, 0);
                   command_giver = 0;
                   current_object = 0;
                 }
@@ -534,6 +543,7 @@ static void call_heart_beat () {
       else
         perc_hb_probes = 100.0;
       heart_beat_index = num_hb_to_do = 0;
+      pop_context (&econ);
     }
   current_prog = 0;
   current_heart_beat = 0;
